@@ -4,3 +4,4 @@ open O2P.Diagram
 #print axioms runs_wellformed
 #print axioms accepts_iff
 #print axioms subset_sound
+#print axioms accepts_iff_iso
